@@ -3976,18 +3976,25 @@ func terminatingConfigGatewayServices(
 }
 
 func GatewayServiceKind(tx ReadTxn, name string, entMeta *acl.EnterpriseMeta) (structs.GatewayServiceKind, error) {
-	serviceIter, err := tx.First(tableServices, indexService, Query{
+	return gatewayServiceKindTxn(tx, nil, name, entMeta)
+}
+
+// gatewayServiceKindTxn is GatewayServiceKind for readers whose result
+// depends on the kind: everything the kind is derived from is added to ws.
+func gatewayServiceKindTxn(tx ReadTxn, ws memdb.WatchSet, name string, entMeta *acl.EnterpriseMeta) (structs.GatewayServiceKind, error) {
+	watchCh, serviceIter, err := tx.FirstWatch(tableServices, indexService, Query{
 		Value:          name,
 		EnterpriseMeta: *entMeta,
 	})
 	if err != nil {
 		return structs.GatewayServiceKindUnknown, err
 	}
+	ws.Add(watchCh)
 	if serviceIter != nil {
 		return structs.GatewayServiceKindService, err
 	}
 
-	_, entry, err := configEntryTxn(tx, nil, structs.ServiceDefaults, name, entMeta)
+	_, entry, err := configEntryTxn(tx, ws, structs.ServiceDefaults, name, entMeta)
 	if err != nil {
 		return structs.GatewayServiceKindUnknown, err
 	}
